@@ -9,6 +9,12 @@ import importlib
 import os
 
 REPO_SRC = os.environ.get("VERIF_REPO_SRC", "/repo/src")
+if REPO_SRC != "/repo/src":
+    # development aid (scratch copies): the native replays must import the SAME tree the verification conditions were generated from
+    import sys
+
+    if REPO_SRC not in sys.path:
+        sys.path.insert(0, REPO_SRC)
 
 
 class FunctionInfo:
